@@ -220,10 +220,44 @@ def _state(det):
     return dict(photon=None if ph is None else hx(ph), charge=hx(det.charge.array), pixel=hx(det.pixel.array))
 
 
+def det_vars(det):
+    """Numeric attributes of the step-independent parts of the detector (values of the translator's
+    `detector.geometry.x` / `detector.characteristics.x` / `detector.environment.x` variables)."""
+    out = {}
+    for root in ("geometry", "characteristics", "environment"):
+        obj = getattr(det, root, None)
+        for name in dir(obj):
+            if name.startswith("_") or name == "numbytes":
+                continue
+            try:
+                v = getattr(obj, name)
+            except Exception:  # noqa: BLE001
+                continue
+            if isinstance(v, (bool, np.bool_)) or not isinstance(v, (int, float, np.integer, np.floating)):
+                continue
+            if math.isfinite(float(v)):
+                out[f"detector.{root}.{name}"] = float(v).hex()
+    return out
+
+
+def json_kw(kw):
+    out = {}
+    for k, v in kw.items():
+        if isinstance(v, (bool, str, int)) or v is None:
+            out[k] = v
+        elif isinstance(v, float):
+            out[k] = {"hex": v.hex()}
+        elif isinstance(v, (list, tuple)):
+            out[k] = [int(x) if isinstance(x, (int, np.integer)) else x for x in v]
+    return out
+
+
 def handle_call(p):
     det_spec, m = p["det"], p["model"]
     shape = (det_spec["rows"], det_spec["cols"])
     kw, aux = build_args(det_spec, m, "call")
+    aux["kw"] = json_kw(kw)
+    aux["detvars"] = det_vars(make_det(det_spec))
     f = _func(m["m"])
     out = dict(aux=aux, steps=[])
     pre = p.get("prefill")
